@@ -38,8 +38,9 @@ def leaks_in(text):
         for i, ch in enumerate(tok):
             if ch != '/':
                 continue
-            if i > 0 and tok[i - 1] not in LEAD:
-                continue
+            # a path glued to a word (e.g. after an escaped line break, "file\\n/abs/path") still counts, but
+            # must then resolve three components deep (a relative path like a/var/tmp/x must not be flagged)
+            glued = i > 0 and tok[i - 1] not in LEAD
             cand = tok[i:]
             cand = re.sub(r'^/+', '/', cand)
             # strip trailing punctuation progressively and test
@@ -53,11 +54,14 @@ def leaks_in(text):
                         deepest += 1
                     else:
                         break
-                if deepest >= 2 or (deepest == len(parts) and deepest >= 1 and len(parts) >= 2):
+                if (deepest >= 3 if glued else deepest >= 2) or \
+                        (not glued and deepest == len(parts) and deepest >= 1 and len(parts) >= 2):
                     found.append(tok)
                     break
                 if cand[-1] in ')]}>,;:.\'"`|':
                     cand = cand[:-1]
+                elif '\\' in cand:
+                    cand = cand[:cand.rindex('\\')]       # text after an escaped character
                 else:
                     break
     return found
@@ -160,7 +164,9 @@ def run(ctx):
     ctx.cov['rule'] = ('cases: (a) every (shape, referent) word of Sanitize.tla x concrete forms x nesting '
                        'replayed into sanitize_paths; (b) one real cloud-safe mapping run per (outcome class x '
                        'directory layout): success, missing query, corrupt query, negative raw, root unusable, '
-                       'marker unknown to reference, markers of another taxonomy, injected worker failures; all '
+                       'marker unknown to reference, markers of another taxonomy, injected worker failures, an output '
+                       'file name too long for the file system, a statistics file without its sum table, a taken obsm '
+                       'key; all '
                        'sink strings scanned. Non-trivial = every run (distinct class x layout).')
     ctx.cov['trusted_base'] = ['TLC 1.8', 'independent scanner harness/checks/c20.py:leaks_in (os.path.exists)']
     ctx.assumptions += ['a token counts as a leak when it contains an absolute path whose existing prefix is '
@@ -181,11 +187,13 @@ def run(ctx):
     if ctx.only in (None, 'c2s'):
         layouts = LAYOUTS[:4] if quick else LAYOUTS
         classes = ['ok', 'missing_csv_dir', 'missing_query', 'corrupt_query', 'negative_raw', 'root_unusable',
-                   'unknown_marker', 'other_taxonomy', 'fault_kill', 'fault_raise', 'ok_csc']
+                   'unknown_marker', 'other_taxonomy', 'fault_kill', 'fault_raise', 'ok_csc',
+                   'long_csv_name', 'stats_without_sum', 'obsm_taken']
         jobs, meta = [], []
         for li, lay in enumerate(layouts):
             for ci, cls in enumerate(classes):
-                if quick and (li + ci) % 2 == 1 and cls not in ('ok', 'fault_raise', 'missing_csv_dir'):
+                if quick and (li + ci) % 2 == 1 and cls not in ('ok', 'fault_raise', 'missing_csv_dir', 'long_csv_name',
+                                                                'stats_without_sum', 'obsm_taken'):
                     continue
                 s = None
                 while s is None:
